@@ -41,6 +41,7 @@ type wReply struct {
 	ReMsg    string   `json:"re_msg"`
 	ReHex    string   `json:"re_hex"`
 	Validate string   `json:"validate"`
+	N        int64    `json:"n"` // per-protocol ReadFrom: bytes it reports as read
 }
 
 const workerAddressSpace = 3 << 30
@@ -57,6 +58,22 @@ func workerMain() {
 		}
 		if strings.HasPrefix(line, "A") {
 			js, _ := json.Marshal(aliasServe(strings.TrimSpace(line[1:])))
+			out.Write(js)
+			out.WriteByte('\n')
+			out.Flush()
+			continue
+		}
+		if c := line[0]; c == 'P' || c == 'Q' || c == 'M' {
+			var rep wReply
+			switch c {
+			case 'P':
+				rep = protoServe(strings.TrimSpace(line[1:]))
+			case 'Q':
+				rep = equalServe(strings.TrimSpace(line[1:]))
+			default:
+				rep = miscServe()
+			}
+			js, _ := json.Marshal(rep)
 			out.Write(js)
 			out.WriteByte('\n')
 			out.Flush()
@@ -149,6 +166,7 @@ type WObs struct {
 	reMsg    string
 	re       []byte
 	validate string
+	n        int64
 }
 
 // a decode that does not answer within this time is a hang (the decode loop can spin
@@ -208,7 +226,7 @@ func (w *worker) request(req string) WObs {
 	if err := json.Unmarshal([]byte(line), &rep); err != nil {
 		panic("harness: bad worker reply: " + err.Error())
 	}
-	o := WObs{out: rep.Out, msg: rep.Msg, alloc: rep.Alloc, reOut: rep.ReOut, reMsg: rep.ReMsg, re: mustHex(rep.ReHex), validate: rep.Validate}
+	o := WObs{out: rep.Out, msg: rep.Msg, alloc: rep.Alloc, reOut: rep.ReOut, reMsg: rep.ReMsg, re: mustHex(rep.ReHex), validate: rep.Validate, n: rep.N}
 	for _, p := range rep.Protos {
 		o.protos = append(o.protos, OProto{K: p.K, Cid: mustHex(p.Cid), VD: p.VD, FR: p.FR, Code: p.Code, Raw: mustHex(p.Raw)})
 	}
